@@ -1,6 +1,6 @@
 SPECIFICATION Spec
 CONSTANTS
-  NStmts = 2400
+  NStmts = 600
   MaxDepth = 3
   MaxCases = 4
   MaxSeq = 4
